@@ -330,7 +330,7 @@ func TestVerifC23(t *testing.T) {
 	rep := vfNewReport("C23", "real http.Service with a scripted mock store: 2-4 concurrent clients x 6-14 queued requests of 1-3 uniquely numbered statements (40% with wait), queue capacity 4-32, batch size 1-6, timeout 3-15 ms, up to 3 injected Execute failures per service (ErrLeaderNotFound, ErrNotLeader with failing or succeeding forward, other error); non-trivial when at least two batches of different sizes were applied")
 	defer rep.Write()
 	r := vfNewRng(23)
-	n := vfScale(8, 120)
+	n := vfScale(8, 600)
 	par := 8
 	kinds := []string{"leader-not-found", "not-leader-forward-fails", "not-leader-forward-ok", "other-error"}
 	var mu sync.Mutex
